@@ -1,5 +1,7 @@
 import Driver.Core
 import Driver.Order
+import Driver.Keys
+import Driver.Sign
 /-! `modeldriver <stream>`: reads a trace on stdin, replays it on the model, prints DIFF / SPEC lines
 and a final `SUMMARY` line with the counts of comparisons and predicate evaluations. -/
 open Driver
@@ -20,6 +22,22 @@ partial def orderLoop (h : IO.FS.Stream) (s : OSt) : IO OSt := do
   for m in s.out do IO.println m
   orderLoop h { s with out := #[] }
 
+partial def keysLoop (h : IO.FS.Stream) (s : Driver.Keys.KSt) : IO Driver.Keys.KSt := do
+  let line ← h.getLine
+  if line.isEmpty then return s
+  let line := if line.back == '\n' then (line.dropEnd 1).toString else line
+  let s := Driver.Keys.handleKeys s line
+  for m in s.out do IO.println m
+  keysLoop h { s with out := #[] }
+
+partial def signLoop (h : IO.FS.Stream) (s : SSt) : IO SSt := do
+  let line ← h.getLine
+  if line.isEmpty then return s
+  let line := if line.back == '\n' then (line.dropEnd 1).toString else line
+  let s := handleSign s line
+  for m in s.out do IO.println m
+  signLoop h { s with out := #[] }
+
 def main (args : List String) : IO UInt32 := do
   let stdin ← IO.getStdin
   match args with
@@ -34,6 +52,16 @@ def main (args : List String) : IO UInt32 := do
     for m in s.out do IO.println m
     let cs := s.checks.toList.map (fun (k, v) => s!"{k}={v}")
     IO.println s!"SUMMARY lines={s.lineNo} diffs={s.diffs} specfails={s.specFails} {" ".intercalate cs}"
+    return 0
+  | ["keys"] =>
+    let s ← keysLoop stdin {}
+    let cs := s.checks.toList.map (fun (k, v) => s!"{k}={v}")
+    IO.println s!"SUMMARY lines={s.lineNo} diffs={s.diffs} specfails={s.specFails} {" ".intercalate cs}"
+    return 0
+  | ["sign"] =>
+    let s ← signLoop stdin {}
+    let cs := s.checks.toList.map (fun (k, v) => s!"{k}={v}")
+    IO.println s!"SUMMARY lines={s.lineNo} diffs={s.diffs} specfails={s.specFails} known={s.known} {" ".intercalate cs}"
     return 0
   | _ =>
     IO.eprintln "usage: modeldriver core < trace"
